@@ -6,7 +6,14 @@ operation the harness records the result and the identity of what every patched 
 operations what each of the four calling conventions returned and which replacement ran with which arguments.
 The Lean model (AsynqModel.Lib.Mock) replays the same history (correspondence) and the Lean observer
 `Mock.spec` (the statement of C19, proved of the model for all histories) judges the implementation's
-observations on their own."""
+observations on their own.
+
+Round 3 dimensions (all part of the model and of what the theorems quantify over): the KIND of object a replacement
+returns / raises (tokens by identity: a future handed back must come back as that very future under every
+convention), and RE-BINDING of the owner named in the dotted path (`rebind`: a string patcher acts on what its name
+refers to at each `__enter__`, a patch.object patcher on the object given at construction).  Harness-level
+realisations of existing model notions: exotic argument objects, long argument lists, class decoration as a block
+style, BaseException-only block exits, more replacement variants, deep nesting."""
 import hashlib
 import json
 import random
@@ -27,11 +34,20 @@ THEOREMS = [
     "AsynqModel.Mock.C19_spec_holds_partial",
     "AsynqModel.Mock.C19_spec_holds_if_autospec_defaults_none",
     "AsynqModel.Mock.C19_new_callable_counterexample",
+    "AsynqModel.Mock.C19_path_resolved_at_every_enter",
+    "AsynqModel.Mock.C19_path_resolved_at_every_start",
+    "AsynqModel.Mock.C19_object_target_fixed",
+    "AsynqModel.Mock.C19_calls_through_name_reach_replacement",
+    "AsynqModel.Mock.C19_result_object_untouched",
+    "AsynqModel.Mock.C19_rebind_touches_no_host",
+    "AsynqModel.Mock.C19_noncallable_as_is_own",
+    "AsynqModel.Mock.C19_shared_replacement_same_object",
+    "AsynqModel.Mock.EnterFail.C19_enter_failure_restores",
 ]
 BUILDS = {"quick": ["py"], "thorough": ["py", "cy"]}
 EXHAUSTIVE = {"quick": False, "thorough": True}
 CASE_TIMEOUT = 20
-RULE = ("exhaustive product target configuration (module function; method via instance / via class / patched on the "
+RULE_OLD = ("exhaustive product target configuration (module function; method via instance / via class / patched on the "
         "instance; classmethod and staticmethod via class / via instance; plain attribute on module / class; absent "
         "attribute with and without create) x replacement kind (DEFAULT, function, classmethod object, staticmethod "
         "object, bound method, callable object, __slots__ callable, callable whose __setattr__ raises TypeError, "
@@ -42,6 +58,18 @@ RULE = ("exhaustive product target configuration (module function; method via in
         "targets and 1-6 patchers (nested / sequential / interleaved blocks, start/stop/stopall, calls with args and "
         "kwargs, ~12% deliberately ill-nested or misused). non-trivial = a history with at least one successful "
         "activation and a call observed inside it or two patches of one target open at once; distinct by case hash")
+RULE = RULE_OLD + (
+    "; ROUND 3: result/exception KINDS of the replacement (None, falsy, ConstFuture / lazy Future / ErrorFuture / AsyncTask "
+    "handles, exception instance as value, object with raising __eq__/__bool__/__repr__, container subclass; "
+    "BaseException-only, falsy, KeyError-subclass errors) x replacement kind x access path (family `kinds`, identity of "
+    "what each convention returns); exotic ARGUMENT objects (None, False, falsy, futures, raising __eq__) and long "
+    "argument lists (family `sizes`, up to 40 positional + 20 keyword arguments); REBINDING of the owner named in the "
+    "dotted path between construction / first use / second use / inside an open block (family `rebind`: 7 owner "
+    "pairs x 4 scenarios x 8 activation styles x patch()/patch.object() x 5 replacement kinds, plus alternates and "
+    "rebind operations in ~25% of the random histories); class decoration (`classdeco`, goes through "
+    "_PatchAsync.copy) as a third block style; blocks left by a BaseException-only error; replacement variants "
+    "lambda / functools.partial / class object / falsy callable / callable with raising __eq__ / None / falsy value; "
+    "falsy original attribute; family `deep`: 3..24 patches of ONE target open at once in mixed styles")
 TRUSTED = [
     "hand-written Lean model AsynqModel.Lib.Mock tied to the code by this differential run only",
     "Python harness checks/c19.py (object <-> token identity registry, vars(host) peeks, recursive-descent "
@@ -50,16 +78,29 @@ TRUSTED = [
     "stopall), CPython descriptor protocol / `with` semantics, asynq.decorators for `asynq(sync_fn=new)(new)`",
 ]
 ASSUMPTIONS = [
-    "replacement functions are ordinary (non-generator) callables; spec/spec_set/autospec=True/kwargs of patch are "
-    "not exercised",
+    "replacement functions are ordinary (non-generator) callables that do not return generator objects or "
+    "mock.DEFAULT; spec/spec_set/autospec=True/kwargs of patch are not exercised; keyword argument names are never "
+    "`self` (CPython: `__call__(self, *args, **kwargs)` of every wrapper, also of asynq's own decorators, rejects it)",
+    "exceptions whose __repr__/__eq__ raise are not used as errors of a replacement (asyncio.run itself fails on "
+    "them in the standard library); they are used as RESULT objects and ARGUMENTS",
+    "rebinding is done by the test itself (`setattr(pkg, 'Owner', other)`); only the owner directly before the "
+    "attribute in the dotted path is rebound",
     "well-nestedness (per target LIFO, no re-entering an open patcher) is the hypothesis of the restore clause; "
     "ill-nested histories are still run and compared with the model but the observer claims nothing after them",
-    "single thread; patch.dict / patch.multiple / class decoration are unittest.mock's own and out of scope",
+    "single thread; patch.dict / patch.multiple are unittest.mock's own and out of scope; class decoration is exercised "
+    "for well-nested histories only (a copy of the patcher has its own state, the model identifies it with the patcher)",
 ]
 
 UNKNOWN = 999999
 INST_TOK = 900001
 CLS_TOK = 900002
+NONE_TOK = 900003          # the result token of every replacement that returns None (one object, one token)
+ARG_BASE = 800000          # argument tokens ARG_BASE+i stand for the exotic argument objects of the world (see run_case)
+N_ARGOBJ = 10
+
+RKINDS = ["plain", "none", "falsy", "constFuture", "lazyFuture", "errorFuture", "task", "excInstance", "exotic",
+          "container"]
+EKINDS = ["exception", "baseOnly", "falsy", "builtinSub"]
 
 # (kind, where, host, via)
 TARGET_CONFIGS = [
@@ -80,24 +121,49 @@ REPL_CONFIGS = [
     ("default", "", 0), ("func", "", 0), ("cmobj", "", 0), ("smobj", "", 0), ("bound", "", 0), ("callobj", "", 0),
     ("sealed", "slots", 0), ("sealed", "typeerr", 0), ("value", "plain", 0), ("value", "int", 0),
     (["newCallable", 1], "", 1), (["newCallable", 0], "", 1), (["newCallable", 1], "", 0), ("default", "", 1),
+    # round 3: unusual objects of the same kinds
+    ("func", "lambda", 0), ("callobj", "partial", 0), ("callobj", "class", 0), ("callobj", "falsy", 0),
+    ("callobj", "eqraise", 0), ("value", "none", 0), ("value", "falsy", 0),
 ]
 CORE_REPLS = [("default", "", 0), ("func", "", 0), ("cmobj", "", 0), ("smobj", "", 0), ("bound", "", 0),
               ("callobj", "", 0), ("sealed", "slots", 0), ("value", "plain", 0), (["newCallable", 1], "", 1)]
 ACTIVATIONS = ["with", "with-exc", "deco", "deco-exc", "start-stop", "start-stopall", "start-stop-stop"]
+ACTIVATIONS3 = ACTIVATIONS + ["classdeco", "classdeco-exc", "with-base"]
 
 
-def tgt(cfg):
-    return {"kind": cfg[0], "where": cfg[1], "host": cfg[2], "via": cfg[3]}
+def tgt(cfg, slot=None, ovar=None):
+    d = {"kind": cfg[0], "where": cfg[1], "host": cfg[2], "via": cfg[3]}
+    if slot is not None:
+        d["slot"] = slot        # an ALTERNATE owner for the name of target `slot` (same attribute name, other host)
+    if ovar:
+        d["ovar"] = ovar        # variant of the original value of a plain attribute ("falsy")
+    return d
 
 
-def construct(p, t, rc, create, behav, api):
-    return ["construct", p, t, rc[0], 1 if create else 0, rc[2], behav, api, rc[1]]
+def retarget_cfg(ts, cfg):
+    """the target description `ts` with another configuration, keeping its role (alternate of a slot)"""
+    d = tgt(cfg, ts.get("slot"))
+    return d
+
+
+def construct(p, t, rc, create, behav, api, share=None):
+    """share=q: the `new` argument of p is the very object patcher q was given (same kind, variant, behaviour)"""
+    op = ["construct", p, t, rc[0], 1 if create else 0, rc[2], behav, api, rc[1]]
+    return op if share is None else op + [share]
+
+
+def share_of(op):
+    return op[9] if op[0] == "construct" and len(op) > 9 else None
 
 
 def activation_ops(p, act, inner):
     """the operations that activate patcher p around `inner` in the given style"""
     if act in ("with", "with-exc"):
         return [["enter", p, "with"]] + inner + [["exit", p, 1 if act.endswith("exc") else 0]]
+    if act == "with-base":
+        return [["enter", p, "with"]] + inner + [["exit", p, 2]]      # left by a BaseException-only error
+    if act in ("classdeco", "classdeco-exc"):
+        return [["enter", p, "classdeco"]] + inner + [["exit", p, 1 if act.endswith("exc") else 0]]
     if act in ("deco", "deco-exc"):
         return [["enter", p, "deco"]] + inner + [["exit", p, 1 if act.endswith("exc") else 0]]
     if act == "start-stop":
@@ -158,25 +224,229 @@ def nested_cases():
     return cases
 
 
+def behav_of(kind, n, raises=False):
+    """a behaviour of the given result / exception kind with token n"""
+    if not raises:
+        if kind == "plain":
+            return ["ret", n]
+        return ["ret", NONE_TOK if kind == "none" else n, kind]
+    return ["raise", n % 8] if kind == "exception" else ["raise", n % 8, kind]
+
+
+KIND_TARGETS = [TARGET_CONFIGS[0], TARGET_CONFIGS[1], TARGET_CONFIGS[2], TARGET_CONFIGS[3], TARGET_CONFIGS[4],
+                TARGET_CONFIGS[7]]
+KIND_REPLS = [("default", "", 0), ("func", "", 0), ("cmobj", "", 0), ("bound", "", 0), ("callobj", "", 0),
+              ("sealed", "slots", 0), (["newCallable", 1], "", 1), ("callobj", "class", 0)]
+
+
+def kinds_cases(tier):
+    """every kind of result object / exception x replacement kind x access path: each convention must hand back
+    that very object (or raise that very exception)"""
+    cases = []
+    n = 0
+    for kind, raises in [(k, False) for k in RKINDS[1:]] + [(k, True) for k in EKINDS[1:]]:
+        for tc in KIND_TARGETS:
+            for rc in KIND_REPLS:
+                n += 1
+                api = ["patch", "object"][n % 2]
+                act = ACTIVATIONS3[n % len(ACTIVATIONS3)] if tier == "thorough" else ["with", "deco", "start-stop"][n % 3]
+                inner = [["call", 0, [1, ARG_BASE + n % N_ARGOBJ], [[0, 4]]], ["call", 0, [], []]]
+                ops = [construct(0, 0, rc, False, behav_of(kind, 30 + n % 50, raises), api)]
+                ops += activation_ops(0, act, inner) + [["call", 0, [6], []]]
+                cases.append({"targets": [tgt(tc)], "ops": ops, "family": "kinds"})
+    return cases
+
+
+def sizes_cases():
+    """long argument lists, exotic argument objects in every position"""
+    cases = []
+    n = 0
+    for tc in (TARGET_CONFIGS[0], TARGET_CONFIGS[1], TARGET_CONFIGS[4], TARGET_CONFIGS[6]):
+        for rc in KIND_REPLS:
+            for na, nk in ((0, 0), (1, 0), (0, 1), (5, 3), (17, 0), (40, 20), (3, 12)):
+                n += 1
+                args = [(ARG_BASE + (i + n) % N_ARGOBJ) if (i + n) % 3 == 0 else (i * 7 + n) % 100 for i in range(na)]
+                kw = [[k, (ARG_BASE + (k + n) % N_ARGOBJ) if k % 2 else k] for k in range(nk)]
+                ops = [construct(0, 0, rc, False, ["ret", 60 + n % 30], ["patch", "object"][n % 2])]
+                ops += activation_ops(0, ["with", "deco", "start-stop", "classdeco"][n % 4], [["call", 0, args, kw]])
+                cases.append({"targets": [tgt(tc)], "ops": ops, "family": "sizes"})
+    return cases
+
+
+# (primary configuration, configuration of the alternate owner that the name is rebound to)
+REBIND_PAIRS = [
+    (("func", "class", "loc", "inst"), ("func", "class", "loc", "inst")),     # pkg.Service -> pkg.ServiceV2
+    (("func", "class", "loc", "cls"), ("sm", "class", "loc", "cls")),
+    (("cm", "class", "loc", "cls"), ("cm", "class", "loc", "inst")),
+    (("func", "module", "loc", "plain"), ("func", "module", "loc", "plain")),  # pkg.sub -> another module object
+    (("func", "instance", "inherited", "plain"), ("func", "instance", "inherited", "plain")),  # pkg.service_obj
+    (("attr", "class", "loc", "inst"), ("attr", "class", "absent", "inst")),   # the new owner lacks the attribute
+    (("func", "class", "loc", "inst"), ("attr", "class", "loc", "inst")),
+]
+REBIND_REPLS = [("default", "", 0), ("func", "", 0), ("callobj", "", 0), ("value", "plain", 0),
+                (["newCallable", 1], "", 1)]
+REBIND_SCENARIOS = ["reuse", "fresh-after-rebind", "construct-then-rebind", "rebind-inside"]
+
+
+def rebind_cases(tier):
+    """the owner named in the dotted path is rebound between construction, first use and second use of a patcher"""
+    cases = []
+    n = 0
+    acts = ACTIVATIONS + ["classdeco"]
+    for pc, ac in REBIND_PAIRS:
+        for scen in REBIND_SCENARIOS:
+            for act in acts:
+                for rc in REBIND_REPLS:
+                    n += 1
+                    apis = ["patch", "object"] if tier == "thorough" else [["patch", "patch", "object"][n % 3]]
+                    for api in apis:
+                        c = lambda k: [["call", 0, [k], [[0, 1]] if k % 2 else []]]
+                        C = [construct(0, 0, rc, False, ["ret", 40 + n % 40], api)]
+                        to_alt, back = [["rebind", 0, 1]], [["rebind", 0, 0]]
+                        if scen == "reuse":
+                            ops = C + activation_ops(0, act, c(1)) + to_alt + c(2) + activation_ops(0, act, c(3)) + \
+                                c(4) + back + c(5) + activation_ops(0, act, c(6))
+                        elif scen == "fresh-after-rebind":
+                            ops = to_alt + C + activation_ops(0, act, c(1)) + back + c(2) + activation_ops(0, act, c(3))
+                        elif scen == "construct-then-rebind":
+                            ops = C + to_alt + activation_ops(0, act, c(1)) + back + activation_ops(0, act, c(2)) + c(3)
+                        else:
+                            ops = C + activation_ops(0, act, c(1) + to_alt + c(2)) + c(3) + back + c(4) + \
+                                activation_ops(0, act, c(5))
+                        cases.append({"targets": [tgt(pc), tgt(ac, slot=0)], "ops": ops, "family": "rebind"})
+    return cases
+
+
+def deep_cases():
+    """many patches of ONE target open at the same time (mixed styles), closed innermost first / by stopall"""
+    cases = []
+    n = 0
+    for tc in (TARGET_CONFIGS[0], TARGET_CONFIGS[1], TARGET_CONFIGS[3]):
+        for depth in (3, 4, 5, 8, 13, 24):
+            for shape in ("blocks", "starts-lifo", "starts-stopall", "mixed"):
+                n += 1
+                pre, opening, closing = [], [], []
+                for p in range(depth):
+                    rc = CORE_REPLS[(p + n) % len(CORE_REPLS)]
+                    pre.append(construct(p, 0, rc, False, ["ret", 100 + p], ["patch", "object"][(p + n) % 2]))
+                    call = ["call", 0, [p], []]
+                    if shape == "blocks" or (shape == "mixed" and p % 2 == 0):
+                        style = ["with", "deco", "classdeco"][(p + n) % 3]
+                        opening += [["enter", p, style], call]
+                        closing = [call, ["exit", p, (p + n) % 3 % 2]] + closing
+                    else:
+                        opening += [["start", p], call]
+                        closing = [call, ["stop", p]] + closing
+                if shape == "starts-stopall":
+                    closing = [["stopall"]]
+                cases.append({"targets": [tgt(tc)], "ops": pre + opening + closing + [["call", 0, [99], []]],
+                              "family": "deep"})
+    return cases
+
+
+SHARED_REPLS = [("func", "", 0), ("cmobj", "", 0), ("bound", "", 0), ("callobj", "", 0), ("callobj", "falsy", 0),
+                ("callobj", "class", 0), ("sealed", "slots", 0), ("value", "plain", 0)]
+
+
+def shared_cases():
+    """ONE replacement object serves two patches (same target nested / two targets overlapping / one after the other)"""
+    cases = []
+    n = 0
+    for tc in (TARGET_CONFIGS[0], TARGET_CONFIGS[1], TARGET_CONFIGS[3]):
+        for rc in SHARED_REPLS:
+            for shape in ("nested-blocks", "nested-starts-lifo", "nested-starts-stopall", "two-targets", "sequential",
+                          "block-in-start"):
+                n += 1
+                t1 = 1 if shape == "two-targets" else 0
+                b = ["ret", 80 + n % 10] if n % 4 else ["raise", n % 5]
+                pre = [construct(0, 0, rc, False, b, "patch"), construct(1, t1, rc, False, b, ["object", "patch"][n % 2], 0)]
+                c0, c1 = [["call", 0, [n % 7], []]], [["call", t1, [1], [[0, 2]]]]
+                if shape in ("nested-blocks", "two-targets"):
+                    body = activation_ops(0, ["with", "deco", "classdeco"][n % 3],
+                                          c0 + activation_ops(1, ["with-exc", "deco", "with"][n % 3], c0 + c1) + c0 + c1)
+                elif shape == "nested-starts-lifo":
+                    body = [["start", 0], ["start", 1]] + c0 + [["stop", 1]] + c0 + [["stop", 0]]
+                elif shape == "nested-starts-stopall":
+                    body = [["start", 0]] + c0 + [["start", 1]] + c0 + [["stopall"]]
+                elif shape == "sequential":
+                    body = activation_ops(0, "with", c0) + c0 + activation_ops(1, "deco-exc", c0) + activation_ops(0, "start-stop", c0)
+                else:
+                    body = [["start", 0]] + activation_ops(1, "with", c0) + c0 + [["stop", 0]]
+                targets = [tgt(tc)] + ([tgt(TARGET_CONFIGS[2])] if t1 else [])
+                cases.append({"targets": targets, "ops": pre + body + c0 + c1, "family": "shared"})
+    return cases
+
+
+ENTERFAIL_TARGETS = [TARGET_CONFIGS[0], TARGET_CONFIGS[1], TARGET_CONFIGS[3], TARGET_CONFIGS[9]]
+ENTERFAIL_PRODUCTS = [("accepting", ""), ("noncallable", ""), ("rejecting", "slots"), ("rejecting", "typeerr")]
+ENTERFAIL_STYLES = ["with", "deco", "classdeco", "start-stop", "start-stopall"]
+
+
+def enterfail_cases():
+    """new_callable products that `_PatchAsync.__enter__` can / cannot decorate (judged by the small Lean model
+    AsynqModel.Mock.EnterFail - the history model has no attribute-rejecting product)"""
+    cases = []
+    n = 0
+    for tc in ENTERFAIL_TARGETS:
+        for prod, var in ENTERFAIL_PRODUCTS:
+            for style in ENTERFAIL_STYLES:
+                n += 1
+                cases.append({"family": "enterfail", "targets": [tgt(tc)], "product": prod, "pvariant": var,
+                              "style": style, "api": ["patch", "object"][n % 2]})
+    return cases
+
+
 def gen_history(rng, malformed=False):
     nt = rng.choice([1, 1, 2, 2, 3])
     targets = [tgt(rng.choice(TARGET_CONFIGS)) for _ in range(nt)]
+    for ts in targets:
+        if ts["kind"] == "attr" and ts["host"] == "loc" and rng.random() < 0.3:
+            ts["ovar"] = "falsy"
+    # alternates: other owners that the name of a slot can be rebound to (about a quarter of the histories)
+    alts = {}      # slot -> [target indices that may stand for it]
+    if rng.random() < 0.27:
+        for _ in range(rng.choice([1, 1, 2])):
+            s_ = rng.randrange(nt)
+            same = [c for c in TARGET_CONFIGS if c[1] == targets[s_]["where"]]
+            targets.append(tgt(rng.choice(same), slot=s_))
+            alts.setdefault(s_, [s_]).append(len(targets) - 1)
+    exotic = rng.random() < 0.3       # this history uses unusual result / argument objects
     np_ = rng.choice([1, 2, 2, 3, 3, 4, 5, 6])
     ops = []
+    if alts and rng.random() < 0.3:   # the name already refers to another owner when the patchers are built
+        s_ = rng.choice(sorted(alts))
+        ops.append(["rebind", s_, rng.choice(alts[s_][1:])])
     for p in range(np_):
         t = rng.randrange(nt) if rng.random() < 0.6 else 0
-        rc = rng.choice(REPL_CONFIGS if rng.random() < 0.25 else CORE_REPLS)
+        if alts and rng.random() < 0.6:
+            t = rng.choice(sorted(alts))
+        rc = rng.choice(REPL_CONFIGS if rng.random() < 0.3 else CORE_REPLS)
         if rc[0] == ["newCallable", 1] and rc[2] == 0 and rng.random() < 0.7:
             rc = (["newCallable", 1], "", 1)
         create = targets[t]["host"] == "absent" and rng.random() < 0.8
-        behav = ["ret", 10 + p] if rng.random() < 0.8 else ["raise", 1 + p % 3]
-        ops.append(construct(p, t, rc, create, behav, rng.choice(["patch", "object"])))
+        if exotic and rng.random() < 0.6:
+            raises = rng.random() < 0.3
+            behav = behav_of(rng.choice(EKINDS if raises else RKINDS), 10 + p, raises)
+        else:
+            behav = ["ret", 10 + p] if rng.random() < 0.8 else ["raise", 1 + p % 3]
+        share = None
+        explicit = [o for o in ops if o[0] == "construct" and isinstance(o[3], str) and o[3] != "default"
+                    and share_of(o) is None and not (o[3] == "value" and o[8] == "none")]
+        if explicit and rng.random() < 0.12:
+            q = rng.choice(explicit)     # the same object once more (its kind, variant and behaviour come with it)
+            rc, behav, share = (q[3], q[8], q[5]), q[6], q[1]
+        ops.append(construct(p, t, rc, create, behav, rng.choice(["patch", "object"]), share))
     started = []   # patchers started and (as far as the generator knows) still active
+
+    def rand_arg():
+        return ARG_BASE + rng.randrange(N_ARGOBJ) if exotic and rng.random() < 0.3 else rng.randint(0, 9)
 
     def rand_call():
         t = rng.randrange(nt)
-        args = [rng.randint(0, 9) for _ in range(rng.choice([0, 1, 1, 2, 3]))]
-        kw = [[k, rng.randint(0, 9)] for k in range(rng.choice([0, 0, 1, 2]))]
+        if alts and rng.random() < 0.6:
+            t = rng.choice(sorted(alts))
+        args = [rand_arg() for _ in range(rng.choice([0, 1, 1, 2, 3]))]
+        kw = [[k, rand_arg()] for k in range(rng.choice([0, 0, 1, 2]))]
         return ["call", t, args, kw]
 
     def seq(depth, open_, budget):
@@ -190,7 +460,7 @@ def gen_history(rng, malformed=False):
             free = [p for p in range(np_) if p not in open_ and p not in started]
             if r < 0.35 and free and depth < 4:
                 p = rng.choice(free)
-                style = rng.choice(["with", "with", "deco"])
+                style = rng.choice(["with", "with", "deco", "classdeco"])
                 out.append(["enter", p, style])
                 mark = len(started)
                 out.extend(seq(depth + 1, open_ + [p], budget))
@@ -202,7 +472,7 @@ def gen_history(rng, malformed=False):
                         out.append(["stop", q])
                     else:
                         late.append(q)
-                out.append(["exit", p, 1 if rng.random() < 0.35 else 0])
+                out.append(["exit", p, rng.choice([1, 1, 1, 2]) if rng.random() < 0.35 else 0])
                 started.extend(reversed(late))
             elif r < 0.5 and free:
                 p = rng.choice(free)
@@ -213,6 +483,9 @@ def gen_history(rng, malformed=False):
             elif r < 0.65 and started and depth == 0:
                 out.append(["stopall"])
                 del started[:]
+            elif alts and r < 0.77:
+                s_ = rng.choice(sorted(alts))
+                out.append(["rebind", s_, rng.choice(alts[s_])])
             elif r < 0.9:
                 out.append(rand_call())
             else:
@@ -237,7 +510,9 @@ def gen_history(rng, malformed=False):
 
 def mutate_ops(rng, ops, np_):
     """ill-nested / misused histories: the bracket structure of enter/exit is kept, everything else may move"""
-    ops = [list(o) for o in ops]
+    # a class decorator works on COPIES of the patcher (own state): outside well-nested use that differs from the
+    # patcher itself, which is all the model has - ill-nested histories use the function decorator instead
+    ops = [[o[0], o[1], "deco"] if o[0] == "enter" and o[2] == "classdeco" else list(o) for o in ops]
     for _ in range(rng.choice([1, 1, 2, 3])):
         k = rng.random()
         p = rng.randrange(np_)
@@ -274,6 +549,7 @@ def corpus():
 def plan(tier, seed):
     rng = random.Random(seed * 1000003 + 19)
     cases = corpus() + product_cases(tier) + nested_cases()
+    cases += kinds_cases(tier) + sizes_cases() + rebind_cases(tier) + deep_cases() + shared_cases() + enterfail_cases()
     n = 1200 if tier == "quick" else 20000
     for i in range(n):
         cases.append(gen_history(rng, malformed=(i % 8 == 7)))
@@ -294,6 +570,8 @@ def _matching(ops):
 
 
 def shrink(case):
+    if "ops" not in case:
+        return
     ops = case["ops"]
     match = _matching(ops)
     if match is None:
@@ -308,15 +586,38 @@ def shrink(case):
         yield mk(ops[:i] + ops[j + 1:])
     for i, j in sorted(match.items()):
         yield mk(ops[:i] + ops[i + 1:j] + ops[j + 1:])
+    shared = {share_of(o) for o in ops} - {None}
     for i, o in enumerate(ops):
-        if o[0] not in ("enter", "exit") and i not in closing:
+        if o[0] not in ("enter", "exit") and i not in closing and not (o[0] == "construct" and o[1] in shared):
             yield mk(ops[:i] + ops[i + 1:])
-    # the plainest target configuration
-    plain = tgt(TARGET_CONFIGS[0])
+    # an object of its own instead of a shared one
+    for i, o in enumerate(ops):
+        if share_of(o) is not None:
+            yield mk(ops[:i] + [o[:9]] + ops[i + 1:])
+    # the plainest target configuration (alternates keep their role and the kind of owner)
+    has_alt = {ts["slot"] for ts in case["targets"] if "slot" in ts}
     for i, ts in enumerate(case["targets"]):
+        if "slot" in ts or i in has_alt:
+            plain = retarget_cfg(ts, next(c for c in TARGET_CONFIGS if c[1] == ts["where"]))
+        else:
+            plain = tgt(TARGET_CONFIGS[0])
         if ts != plain and not any(o[0] == "construct" and o[2] == i and o[4] for o in ops):
             yield {"targets": case["targets"][:i] + [plain] + case["targets"][i + 1:], "ops": ops,
                    "family": case.get("family", "")}
+    # ordinary result / exception, ordinary block style, ordinary replacement variant
+    for i, o in enumerate(ops):
+        involved = o[0] == "construct" and (o[1] in shared or share_of(o) is not None)
+        if o[0] == "construct" and len(o[6]) > 2 and not involved:
+            b = ["ret", 10 + o[1]] if o[6][0] == "ret" else ["raise", o[6][1]]
+            yield mk(ops[:i] + [o[:6] + [b] + o[7:]] + ops[i + 1:])
+        if o[0] == "construct" and len(o) > 8 and o[8] not in ("", "plain", "slots") and not involved:
+            yield mk(ops[:i] + [o[:8] + [{"value": "plain", "sealed": "slots"}.get(o[3], "")]] + ops[i + 1:])
+        if o[0] == "enter" and o[2] != "with":
+            yield mk(ops[:i] + [[o[0], o[1], "with"]] + ops[i + 1:])
+        if o[0] == "exit" and o[2] == 2:
+            yield mk(ops[:i] + [[o[0], o[1], 1]] + ops[i + 1:])
+        if o[0] == "call" and any(a >= ARG_BASE for a in o[2]):
+            yield mk(ops[:i] + [["call", o[1], [a for a in o[2] if a < ARG_BASE], o[3]]] + ops[i + 1:])
     # fewer arguments in calls
     for i, o in enumerate(ops):
         if o[0] == "call" and (o[2] or o[3]):
@@ -324,15 +625,18 @@ def shrink(case):
 
 
 def neighbours(case, rng):
+    if "ops" not in case:
+        return
     np_ = 1 + max([o[1] for o in case["ops"] if o[0] == "construct"] or [0])
     for rc in REPL_CONFIGS:
-        ops = [list(o) for o in case["ops"]]
+        ops = [list(o[:9]) if o[0] == "construct" else list(o) for o in case["ops"]]   # (nothing shared any more)
         for o in ops:
             if o[0] == "construct" and rng.random() < 0.6:
                 o[3], o[8], o[5] = rc[0], rc[1], rc[2]
         yield {"targets": case["targets"], "ops": ops, "family": "neighbour"}
-    for tc in TARGET_CONFIGS:
-        yield {"targets": [tgt(tc) for _ in case["targets"]], "ops": case["ops"], "family": "neighbour"}
+    if not any("slot" in ts for ts in case["targets"]):
+        for tc in TARGET_CONFIGS:
+            yield {"targets": [tgt(tc) for _ in case["targets"]], "ops": case["ops"], "family": "neighbour"}
     for _ in range(16):
         yield {"targets": case["targets"], "ops": mutate_ops(rng, case["ops"], np_), "family": "neighbour"}
 
@@ -343,12 +647,24 @@ def signature(case, v):
     import re
     clause = v.get("spec", "ok")
     extra = ""
+    if case.get("family") == "enterfail":
+        return "%s/new_callable-product-%s" % (clause, case.get("product"))
     if clause.startswith("fail:construct@"):
         nc = [i for i, o in enumerate(case["ops"]) if o[0] == "construct" and isinstance(o[3], list) and not o[5]]
         m = re.match(r"obs (\d+):", v.get("detail", "") or "")
         first_diff = int(m.group(1)) if m else None
         agree = v.get("corr") == "ok" or (first_diff is not None and nc and first_diff > nc[0])
         extra = "/new_callable-with-default-autospec" if (nc and agree) else "/other"
+    elif clause.startswith("fail:conventions"):
+        # which kind of result / exception object the conventions disagree on - read from the model's side of the
+        # first differing observation (the framework asks for the signature BEFORE it shrinks the case, so nothing
+        # else of the case may enter it)
+        m = re.search(r"model=(.*?) impl=", v.get("detail", "") or "")
+        kinds = (set(re.findall(r"(?:RKind|EKind)\.(\w+)", m.group(1))) if m else set()) - {"plain", "exception"}
+        if kinds & {"constFuture", "lazyFuture", "errorFuture", "task"}:
+            extra = "/result-is-an-asynq-future"
+        elif kinds:
+            extra = "/result-kind=" + "+".join(sorted(kinds))
     return "%s%s" % (clause, extra)
 
 
@@ -360,6 +676,22 @@ class UserErr(Exception):
     pass
 
 
+class BaseOnlyErr(BaseException):
+    """an error that is not an `Exception`"""
+
+
+class FalsyErr(Exception):
+    def __bool__(self):
+        return False
+
+    def __len__(self):
+        return 0
+
+
+class KeyErrSub(KeyError):
+    pass
+
+
 class Leave(Exception):
     """raised by the harness at the end of a block that is to be left by exception"""
 
@@ -368,16 +700,165 @@ class Leave(Exception):
         self.k = k
 
 
+class LeaveBase(BaseException):
+    """the same, but not an `Exception`"""
+
+    def __init__(self, k):
+        BaseException.__init__(self, "leave block %d" % k)
+        self.k = k
+
+
 class Plain(object):
     """a non-callable object"""
+
+
+class Weird(object):
+    """comparing, hashing, truth-testing or printing it fails"""
+    __hash__ = None
+
+    def __eq__(self, other):
+        raise RuntimeError("Weird.__eq__")
+
+    def __ne__(self, other):
+        raise RuntimeError("Weird.__ne__")
+
+    def __bool__(self):
+        raise RuntimeError("Weird.__bool__")
+
+    def __repr__(self):
+        raise RuntimeError("Weird.__repr__")
+
+    __str__ = __repr__
+
+
+class ListSub(list):
+    pass
 
 
 _MISSING = object()
 _world_counter = [0]
 
 
+def run_enterfail(case):
+    """one activation of `patch(..., new_callable=factory)` in the given style; what the host holds inside the block
+    and when everything is over"""
+    import sys
+    import types
+    from unittest import mock
+
+    import asynq
+
+    _active = getattr(getattr(mock, "_patch", None), "_active_patches", None)
+    if _active:
+        del _active[:]
+    _world_counter[0] += 1
+    modname = "c19_world_%d" % _world_counter[0]
+    mod = types.ModuleType(modname)
+    sys.modules[modname] = mod
+
+    class Svc(object):
+        pass
+
+    inst = Svc()
+    mod.Svc, mod.inst = Svc, inst
+    ts = case["targets"][0]
+
+    def fn(*a, **k):
+        return 7000
+
+    orig = asynq.asynq()(fn) if ts["kind"] == "func" else Plain()
+    name = "a0"
+    if ts["where"] == "module":
+        hobj, path = mod, "%s.%s" % (modname, name)
+    elif ts["where"] == "class":
+        hobj, path = Svc, "%s.Svc.%s" % (modname, name)
+    else:
+        hobj, path = inst, "%s.inst.%s" % (modname, name)
+    setattr(Svc if ts["host"] == "inherited" else hobj, name, orig)
+    prods = []
+
+    def factory(**kw):
+        if case["product"] == "accepting":
+            class Made(object):
+                def __call__(self, *a, **k):
+                    return 1
+        elif case["product"] == "noncallable":
+            Made = Plain
+        elif case["pvariant"] == "typeerr":
+            class Made(object):
+                __slots__ = ()
+
+                def __setattr__(self, k, v):
+                    raise TypeError("no attributes on this extension type")
+
+                def __call__(self, *a, **k):
+                    return 1
+        else:
+            class Made(object):
+                __slots__ = ()
+
+                def __call__(self, *a, **k):
+                    return 1
+        o = Made()
+        prods.append(o)
+        return o
+
+    def held():
+        v = vars(hobj).get(name, _MISSING)
+        if v is orig or (v is _MISSING and ts["host"] == "inherited"):
+            return "orig"
+        return "product" if any(v is x for x in prods) else "other"
+
+    kw = {"new_callable": factory, "autospec": None}
+    pt = asynq.mock.patch.object(hobj, name, **kw) if case["api"] == "object" else asynq.mock.patch(path, **kw)
+    state = {"entered": 0, "during": "none"}
+
+    def body(*extra):
+        state["entered"] = 1
+        state["during"] = held()
+
+    style = case["style"]
+    try:
+        try:
+            if style == "with":
+                with pt:
+                    body()
+            elif style == "deco":
+                pt(lambda *extra: body())()
+            elif style == "classdeco":
+                class Tests(object):
+                    def test_body(self, *extra):
+                        body()
+                pt(Tests)().test_body()
+            else:
+                try:
+                    pt.start()
+                    body()
+                finally:
+                    # what a careful test does in tearDown / addCleanup, whether or not setUp got through
+                    if style == "start-stop":
+                        pt.stop()
+                    else:
+                        asynq.mock.patch.stopall()
+        except (AttributeError, TypeError):
+            if state["entered"]:
+                raise
+        after = held()
+    finally:
+        if _active:
+            del _active[:]
+        sys.modules.pop(modname, None)
+    lines = ["(case mockfail %d %s %s)" % (case["id"], case["product"], style),
+             "(obs %d %s %s)" % (state["entered"], state["during"], after), "(end)"]
+    feats = ["family=enterfail", "product=%s%s" % (case["product"], "/" + case["pvariant"] if case["pvariant"] else ""),
+             "style=" + style, "target=%s/%s/%s/%s" % (ts["kind"], ts["where"], ts["host"], ts["via"])]
+    key = hashlib.sha1(json.dumps(case, sort_keys=True).encode()).hexdigest()[:16]
+    return {"lines": lines, "features": feats, "nontrivial": key}
+
+
 def run_case(case):
     import asyncio
+    import functools
     import inspect
     import sys
     import types
@@ -385,7 +866,10 @@ def run_case(case):
 
     import asynq
     import asynq.decorators
+    import asynq.futures
 
+    if case.get("family") == "enterfail":
+        return run_enterfail(case)
     ops = case["ops"]
     match = _matching(ops)
     if match is None:
@@ -407,18 +891,85 @@ def run_case(case):
     mod.Svc = Svc
     mod.inst = inst
 
-    errs = {e: UserErr("e%d" % e) for e in range(0, 8)}
-    err_tok = {id(e): k for k, e in errs.items()}
-    log = []          # (callee token string, args, kwargs) of every user-level callable that ran
-    ident = {}        # id(object) -> token s-expression (without tag) ; keeps objects alive through `keep`
     keep = []
+    ident = {}        # id(object) -> token s-expression (without tag) ; keeps objects alive through `keep`
+    log = []          # (callee token string, args, kwargs) of every user-level callable that ran
+    ctx = {"inst": inst, "cls": Svc}   # the instance / class the current call goes through
+
+    # ---- exceptions and result objects: tokens by identity ------------------------------------------
+    err_objs = {}     # (e, kind) -> exception object
+    err_tok = {}      # id(exception) -> "(raised user e [kind])"
+
+    def err_obj(e, kind):
+        if (e, kind) not in err_objs:
+            if kind == "baseOnly":
+                x = BaseOnlyErr("b%d" % e)
+            elif kind == "falsy":
+                x = FalsyErr("f%d" % e)
+            elif kind == "builtinSub":
+                x = KeyErrSub("k%d" % e, e)
+            else:
+                x = UserErr("e%d" % e)
+            err_objs[(e, kind)] = x
+            err_tok[id(x)] = "(raised user %d)" % e if kind == "exception" else "(raised user %d %s)" % (e, kind)
+        return err_objs[(e, kind)]
+
+    res_tok = {}      # id(result object) -> "(ok r kind)"
+
+    @asynq.asynq()
+    def handle_task():
+        return 424242
+
+    def result_obj(r, kind):
+        """a NEW object of the given kind standing for result token r (None is the one exception)"""
+        if kind == "none":
+            return None
+        if kind == "falsy":
+            o = [[], 0.0 * (r + 1), ListSub()][r % 3]
+        elif kind == "constFuture":
+            o = asynq.ConstFuture(("inner", r))
+        elif kind == "lazyFuture":
+            o = asynq.Future(lambda: ("lazy", r))
+        elif kind == "errorFuture":
+            o = asynq.futures.ErrorFuture(UserErr("inside a future that is only handed around"))
+        elif kind == "task":
+            o = handle_task.asynq()
+        elif kind == "excInstance":
+            o = [ValueError("a value, not an error"), BaseOnlyErr("a value"), FalsyErr()][r % 3]
+        elif kind == "exotic":
+            o = Weird()
+        elif kind == "container":
+            o = [ListSub([r, r]), tuple([r, "x"]), {"r": r}][r % 3]
+        else:
+            raise ValueError(kind)
+        keep.append(o)
+        res_tok[id(o)] = "(ok %d %s)" % (r, kind)
+        return o
+
+    def out_tok(r):
+        if r is None:
+            return "(ok %d none)" % NONE_TOK
+        if id(r) in res_tok:
+            return res_tok[id(r)]
+        return "(ok %d)" % (r if isinstance(r, int) and not isinstance(r, bool) and 0 <= r < ARG_BASE else UNKNOWN)
+
+    # exotic argument objects: token ARG_BASE+i <-> argobjs[i], by identity
+    argobjs = [None, False, [], asynq.ConstFuture(("arg", 3)), asynq.Future(lambda: ("arg", 4)), Weird(), (), 0.0,
+               ValueError("an argument"), mock.DEFAULT]
+    assert len(argobjs) == N_ARGOBJ
+
+    def arg_obj(a):
+        return argobjs[a - ARG_BASE] if ARG_BASE <= a < ARG_BASE + N_ARGOBJ else a
 
     def arg_tok(a):
-        if a is inst:
+        for i, o in enumerate(argobjs):
+            if a is o:
+                return ARG_BASE + i
+        if a is ctx["inst"]:
             return INST_TOK
-        if a is Svc:
+        if a is ctx["cls"]:
             return CLS_TOK
-        if isinstance(a, int) and not isinstance(a, bool) and 0 <= a < 900000:
+        if isinstance(a, int) and not isinstance(a, bool) and 0 <= a < ARG_BASE:
             return a
         return UNKNOWN
 
@@ -427,13 +978,31 @@ def run_case(case):
                                        " ".join("(%s %d)" % (kk[1:] if kk[:1] == "k" and kk[1:].isdigit() else UNKNOWN,
                                                              arg_tok(vv)) for kk, vv in k.items())))
         if behav[0] == "raise":
-            raise errs[behav[1]]
+            raise behav[1]
         return behav[1]
 
+    def realise(behav):
+        """[kind-of-behaviour, the very object to return / raise]"""
+        if behav[0] == "raise":
+            return ["raise", err_obj(behav[1], behav[2] if len(behav) > 2 else "exception")]
+        if len(behav) > 2 and behav[2] != "plain":
+            return ["ret", result_obj(behav[1], behav[2])]
+        return ["ret", behav[1]]
+
     # ---- the world: targets -------------------------------------------------------------------
-    hosts = []
-    for t, ts in enumerate(case["targets"]):
-        name = "a%d" % t
+    # Every target is (host object, attribute name).  A target with "slot": s is an ALTERNATE owner for the name of
+    # target s: same attribute name on another class / instance / module.  A slot that has alternates is reached
+    # through an alias `pkg.Own<s>` in the dotted path, and `rebind s t` is `setattr(pkg, "Own<s>", owner of t)`.
+    tspecs = case["targets"]
+    aliased = {ts["slot"] for ts in tspecs if "slot" in ts}
+    hosts = []        # t -> (host object, attribute name)
+    insts = {}        # t -> instance used for via == "inst" / the host instance
+    classes = {}      # t -> the class the attribute is (also) found on
+    for t, ts in enumerate(tspecs):
+        slot = ts.get("slot", t)
+        if slot != t and ("slot" in tspecs[slot] or tspecs[slot]["where"] != ts["where"]):
+            raise ValueError("alternate %d does not fit slot %d" % (t, slot))
+        name = "a%d" % slot
         kind, where, host = ts["kind"], ts["where"], ts["host"]
         behav = ["ret", 7000 + t]
         callee = "(orig %d)" % t
@@ -448,37 +1017,68 @@ def run_case(case):
         elif kind == "sm":
             obj = asynq.asynq()(staticmethod(plain_fn))
         else:
-            obj = Plain()
+            obj = [] if ts.get("ovar") == "falsy" else Plain()
         keep.append(obj)
         ident[id(obj)] = "(orig %d)" % t
+        if slot == t:
+            the_mod, the_cls, the_inst = mod, Svc, inst
+        else:
+            the_mod = types.ModuleType("%s_alt%d" % (modname, t))
+            the_cls = type("AltSvc%d" % t, (object,), {})
+            the_inst = the_cls()
+            keep.extend([the_mod, the_cls, the_inst])
         if where == "module":
-            hobj, path = mod, "%s.%s" % (modname, name)
+            hobj = the_mod
             if host == "loc":
-                setattr(mod, name, obj)
+                setattr(hobj, name, obj)
         elif where == "class":
-            hobj, path = Svc, "%s.Svc.%s" % (modname, name)
+            hobj = the_cls
             if host == "loc":
-                setattr(Svc, name, obj)
+                setattr(hobj, name, obj)
         else:
-            hobj, path = inst, "%s.inst.%s" % (modname, name)
+            hobj = the_inst
             if host == "inherited":
-                setattr(Svc, name, obj)
-        via = ts["via"]
-        if via == "cls":
-            getter = (lambda n=name: getattr(Svc, n))
-        elif via == "inst" or where == "instance":
-            getter = (lambda n=name: getattr(inst, n))
-        else:
-            getter = (lambda n=name: getattr(mod, n))
-        hosts.append((hobj, name, path, getter))
+                setattr(the_cls, name, obj)
+        hosts.append((hobj, name))
+        insts[t] = the_inst
+        classes[t] = the_cls
+    bound = {}        # slot -> the target its name refers to now
+    for s_ in range(len(tspecs)):
+        if "slot" not in tspecs[s_]:
+            bound[s_] = s_
+            if s_ in aliased:
+                setattr(mod, "Own%d" % s_, hosts[s_][0])
+
+    def path_of(s_):
+        name = hosts[s_][1]
+        if s_ in aliased:
+            return "%s.Own%d.%s" % (modname, s_, name)
+        where = tspecs[s_]["where"]
+        return "%s.%s%s" % (modname, {"module": "", "class": "Svc.", "instance": "inst."}[where], name)
+
+    def lookup(s_):
+        """what a caller gets who goes through the NAME of slot s_ now"""
+        t = bound[s_]
+        ts = tspecs[t]
+        owner = getattr(mod, "Own%d" % s_) if s_ in aliased else hosts[t][0]
+        if owner is not hosts[t][0]:
+            raise ValueError("harness: owner of slot %d out of step" % s_)
+        ctx["inst"], ctx["cls"] = insts[t], classes[t]
+        if ts["where"] == "class" and ts["via"] != "cls":
+            return getattr(insts[t], hosts[t][1])
+        return getattr(owner, hosts[t][1])
 
     patchers = {}
     specs = {}
     made = {}         # p -> list of objects made for p (in order of first appearance)
     fresh = set()     # ids of objects produced by a new_callable factory
+    none_given = []   # the one patcher whose replacement is None itself
+    raw_new = {}      # p -> the object passed as `new`
 
     def tok(o):
         """token of an object found in a host's __dict__ / returned by __enter__"""
+        if o is None and none_given:
+            return "(given %d)" % none_given[0]
         s = ident.get(id(o))
         if s is not None:
             return s
@@ -504,14 +1104,14 @@ def run_case(case):
 
     def peeks():
         out = []
-        for hobj, name, _, _ in hosts:
+        for hobj, name in hosts:
             v = vars(hobj).get(name, _MISSING)
             out.append("none" if v is _MISSING else tok(v))
         return "(%s)" % " ".join(out)
 
     def exc_tok(e):
         if id(e) in err_tok:
-            return "(raised user %d)" % err_tok[id(e)]
+            return err_tok[id(e)]
         if isinstance(e, TypeError):
             return "(raised typeError)"
         if isinstance(e, AttributeError):
@@ -528,27 +1128,34 @@ def run_case(case):
             return 0
 
     lines = ["(case mock %d (targets %s) (defaults %d %d))" % (
-        case["id"], " ".join("(tgt %s %s %s)" % (ts["kind"], ts["host"], ts["via"]) for ts in case["targets"]),
+        case["id"], " ".join("(tgt %s %s %s)" % (ts["kind"], ts["host"], ts["via"]) for ts in tspecs),
         default_is_none(asynq.mock.patch), default_is_none(asynq.mock.patch.object))]
-    stats = {"entered": 0, "calls_in_patch": 0, "maxdepth": 0, "exc_exits": 0, "enter_failed": 0}
+    stats = {"entered": 0, "calls_in_patch": 0, "maxdepth": 0, "exc_exits": 0, "enter_failed": 0, "rebinds": 0,
+             "entered_rebound": 0}
     open_targets = []
+
+    def behav_sexp(b):
+        return "(%s %d)" % (b[0], b[1]) if len(b) < 3 or b[2] in ("plain", "exception") else "(%s %d %s)" % tuple(b)
 
     def op_sexp(op):
         k = op[0]
         if k == "construct":
             r = op[3]
             rs = r if isinstance(r, str) else "(newCallable %d)" % r[1]
-            return "(construct %d %d %s %d %d %d (%s %d))" % (op[1], op[2], rs, op[4], op[5],
-                                                              1 if op[7] == "object" else 0, op[6][0], op[6][1])
+            return "(construct %d %d %s %d %d %d %s%s)" % (
+                op[1], op[2], rs, op[4], op[5], 1 if op[7] == "object" else 0, behav_sexp(op[6]),
+                "" if share_of(op) is None else " (share %d)" % share_of(op))
         if k == "enter":
             return "(enter %d)" % op[1]
         if k == "exit":
-            return "(exit %d %d)" % (op[1], op[2])
+            return "(exit %d %d)" % (op[1], 1 if op[2] else 0)
         if k in ("start", "stop"):
             return "(%s %d)" % (k, op[1])
         if k == "call":
             return "(call %d (%s) (%s))" % (op[1], " ".join(str(a) for a in op[2]),
                                             " ".join("(%d %d)" % (kk, vv) for kk, vv in op[3]))
+        if k == "rebind":
+            return "(rebind %d %d)" % (op[1], op[2])
         return "(%s)" % k
 
     def emit(op, res):
@@ -557,8 +1164,14 @@ def run_case(case):
     # ---- replacements ---------------------------------------------------------------------------
     def make_new(p, spec):
         """the keyword arguments for patch() that realise replacement kind spec['repl']"""
-        repl, variant, behav = spec["repl"], spec["variant"], spec["behav"]
+        repl, variant, behav = spec["repl"], spec["variant"], spec["rbehav"]
         given = "(given %d)" % p
+        if spec.get("share") is not None:
+            q = spec["share"]
+            if q not in raw_new or specs[q]["repl"] != repl or specs[q]["variant"] != variant:
+                raise ValueError("harness: patcher %d cannot share the replacement of %d" % (p, q))
+            raw_new[p] = raw_new[q]
+            return {"new": raw_new[q]}
 
         def fn(*a, **k):
             return do(given, behav, a, k)
@@ -581,7 +1194,7 @@ def run_case(case):
                 return o
             return {"new_callable": factory}
         if repl == "func":
-            new = fn
+            new = (lambda *a, **k: do(given, behav, a, k)) if variant == "lambda" else fn
         elif repl == "cmobj":
             new = classmethod(fn)
         elif repl == "smobj":
@@ -592,10 +1205,34 @@ def run_case(case):
                     return do(given, behav, a, k)
             new = Holder().bm
         elif repl == "callobj":
-            class CallObj(object):
-                def __call__(self, *a, **k):
-                    return do(given, behav, a, k)
-            new = CallObj()
+            if variant == "partial":
+                new = functools.partial(fn)
+            elif variant == "class":
+                class CallCls(object):
+                    def __new__(cls, *a, **k):
+                        return do(given, behav, a, k)
+                new = CallCls
+            elif variant == "falsy":
+                class CallFalsy(object):
+                    def __call__(self, *a, **k):
+                        return do(given, behav, a, k)
+
+                    def __bool__(self):
+                        return False
+
+                    def __len__(self):
+                        return 0
+                new = CallFalsy()
+            elif variant == "eqraise":
+                class CallWeird(Weird):
+                    def __call__(self, *a, **k):
+                        return do(given, behav, a, k)
+                new = CallWeird()
+            else:
+                class CallObj(object):
+                    def __call__(self, *a, **k):
+                        return do(given, behav, a, k)
+                new = CallObj()
         elif repl == "sealed":
             if variant == "typeerr":
                 class Sealed(object):
@@ -614,17 +1251,26 @@ def run_case(case):
                         return do(given, behav, a, k)
             new = Sealed()
         elif repl == "value":
-            new = (10 ** 9 + p) if variant == "int" else Plain()
+            if variant == "none" and not none_given:
+                none_given.append(p)
+                return {"new": None}
+            if variant == "int":
+                new = 10 ** 9 + p
+            elif variant in ("falsy", "none"):
+                new = [[], ListSub(), 0.0 * (p + 1)][p % 3]
+            else:
+                new = Plain()
         else:
             raise ValueError(repl)
         keep.append(new)
         ident[id(new)] = given
+        raw_new[p] = new
         return {"new": new}
 
     def after_enter(p, obj):
         """register what __enter__ returned; give a DEFAULT mock its behaviour"""
         stats["entered"] += 1
-        if id(obj) not in ident:
+        if id(obj) not in ident and not (obj is None and none_given):
             lst = made.setdefault(p, [])
             if not any(x is obj for x in lst):
                 lst.append(obj)
@@ -632,9 +1278,11 @@ def run_case(case):
         spec = specs[p]
         if spec["repl"] == "default" and isinstance(obj, mock.NonCallableMock):
             ct = callee_tok(p, obj)
-            behav = spec["behav"]
+            behav = spec["rbehav"]
             obj.side_effect = lambda *a, **k: do(ct, behav, a, k)
         t = spec["target"]
+        if bound.get(t, t) != t:
+            stats["entered_rebound"] += 1
         open_targets.append(t)
         stats["maxdepth"] = max(stats["maxdepth"], open_targets.count(t))
         return "(entered %s)" % tok(obj)
@@ -659,17 +1307,21 @@ def run_case(case):
                     res = "(skipped)"
                 else:
                     spec = {"target": t, "repl": op[3], "create": op[4], "an": op[5], "behav": op[6], "api": op[7],
-                            "variant": op[8] if len(op) > 8 else ""}
+                            "variant": op[8] if len(op) > 8 else "", "share": share_of(op)}
+                    # a shared object behaves as it behaves: the behaviour realised for the patcher it came from
+                    spec["rbehav"] = specs[spec["share"]]["rbehav"] if spec["share"] in specs else realise(op[6])
                     kw = make_new(p, spec)
                     if spec["create"]:
                         kw["create"] = True
                     if spec["an"]:
                         kw["autospec"] = None
-                    hobj, name, path, _ = hosts[t]
                     if spec["api"] == "object":
+                        # the caller hands over the owner the name refers to at this moment
+                        spec["otarget"] = bound[t]
+                        hobj, name = hosts[bound[t]]
                         pt = asynq.mock.patch.object(hobj, name, **kw)
                     else:
-                        pt = asynq.mock.patch(path, **kw)
+                        pt = asynq.mock.patch(path_of(t), **kw)
                     patchers[p] = pt
                     specs[p] = spec
                     res = "(made)"
@@ -698,10 +1350,18 @@ def run_case(case):
                 res = do_call(op)
             elif k == "peek":
                 res = "(unit)"
+            elif k == "rebind":
+                s_, t = op[1], op[2]
+                if s_ not in aliased or not (t == s_ or tspecs[t].get("slot") == s_):
+                    raise ValueError("unknown op %r (no such alternate)" % (op,))
+                setattr(mod, "Own%d" % s_, hosts[t][0])
+                bound[s_] = t
+                stats["rebinds"] += 1
+                res = "(unit)"
             else:
                 raise ValueError("unknown op %r" % (op,))
         except Exception as e:  # the outcome of the operation, not a harness failure
-            if isinstance(e, ValueError) and str(e).startswith("unknown op"):
+            if isinstance(e, ValueError) and str(e).startswith(("unknown op", "harness:")):
                 raise
             if k == "start":
                 stats["enter_failed"] += 1
@@ -709,9 +1369,9 @@ def run_case(case):
         emit(op, res)
 
     def do_call(op):
-        t, args, kwl = op[1], op[2], op[3]
-        kw = {"k%d" % kk: vv for kk, vv in kwl}
-        get = hosts[t][3]
+        t, args, kwl = op[1], [arg_obj(a) for a in op[2]], op[3]
+        kw = {"k%d" % kk: arg_obj(vv) for kk, vv in kwl}
+        get = lambda: lookup(t)
         if t in open_targets:
             stats["calls_in_patch"] += 1
 
@@ -734,9 +1394,12 @@ def run_case(case):
         for f in (sync, value, yield_, asyncio_):
             del log[:]
             try:
-                r = f()
-                o = "(ok %d)" % (r if isinstance(r, int) and not isinstance(r, bool) and 0 <= r < 900000 else UNKNOWN)
-            except Exception as e:
+                o = out_tok(f())
+            except BaseException as e:
+                if not isinstance(e, Exception) and id(e) not in err_tok:
+                    raise                      # not ours (KeyboardInterrupt, a harness bug): never an observation
+                if isinstance(e, ValueError) and str(e).startswith("harness:"):
+                    raise
                 o = exc_tok(e)
             out.append("(%s (%s))" % (o, " ".join(log)))
         del log[:]
@@ -772,10 +1435,18 @@ def run_case(case):
             return
         state = {"entered": False}
 
+        def installed_now():
+            # a decorator hands the replacement over only for DEFAULT / new_callable; otherwise look where it was put
+            spec = specs[p]
+            hobj, name = hosts[spec["otarget"] if spec["api"] == "object" else bound[spec["target"]]]
+            return vars(hobj).get(name, _MISSING)
+
         def body(m):
             state["entered"] = True
             emit(op, after_enter(p, m))
             exec_range(i + 1, k)
+            if exc == 2:
+                raise LeaveBase(k)
             if exc:
                 raise Leave(k)
 
@@ -784,17 +1455,31 @@ def run_case(case):
             if style == "deco":
                 @pt
                 def decorated(*extra):
-                    hobj, name, _, _ = hosts[specs[p]["target"]]
-                    body(extra[0] if extra else vars(hobj).get(name, _MISSING))
+                    body(extra[0] if extra else installed_now())
                 decorated()
+            elif style == "classdeco":
+                # `patch(...)` applied to a class decorates every `test*` method with a COPY of the patcher
+                # (`_PatchAsync.copy`); calling the method is one use of that copy
+                class Tests(object):
+                    def test_body(self, *extra):
+                        body(extra[0] if extra else installed_now())
+
+                    def helper(self):
+                        return None
+                decorated_cls = pt(Tests)
+                if decorated_cls is not Tests:
+                    raise ValueError("harness: class decorator returned another class")
+                Tests().test_body()
             else:
                 with pt as m:
                     body(m)
-        except Leave as e:
+        except (Leave, LeaveBase) as e:
             if e.k != k:
                 raise
             propagated = True
         except Exception as e:
+            if isinstance(e, ValueError) and str(e).startswith(("unknown op", "harness:")):
+                raise
             if not state["entered"]:
                 stats["enter_failed"] += 1
                 skipped_block(i, k, exc_tok(e))
@@ -824,15 +1509,28 @@ def run_case(case):
     lines.append("(end)")
 
     fam = case.get("family", "corpus")
-    feats = ["family=" + fam, "targets=%d" % len(case["targets"]),
-             "patchers=%d" % len([o for o in ops if o[0] == "construct"]),
+    constructs = [o for o in ops if o[0] == "construct"]
+    feats = ["family=" + fam, "targets=%d" % len([ts for ts in tspecs if "slot" not in ts]),
+             "alternates=%d" % len([ts for ts in tspecs if "slot" in ts]),
+             "patchers=%d" % len(constructs),
              "ops<=%d" % next(b for b in (8, 16, 32, 64, 10 ** 9) if len(ops) <= b),
-             "depth=%d" % min(stats["maxdepth"], 4),
-             "exc_exits=%d" % min(stats["exc_exits"], 3), "enter_failed=%d" % min(stats["enter_failed"], 2)]
-    feats += sorted({"op=" + o[0] + ("/" + o[2] if o[0] == "enter" else "") for o in ops})
+             "depth=%s" % (min(stats["maxdepth"], 4) if stats["maxdepth"] < 8 else ">=8"),
+             "exc_exits=%d" % min(stats["exc_exits"], 3), "enter_failed=%d" % min(stats["enter_failed"], 2),
+             "rebinds=%d" % min(stats["rebinds"], 3), "entered_while_rebound=%d" % min(stats["entered_rebound"], 2)]
+    feats += sorted({"op=" + o[0] + ("/" + o[2] if o[0] == "enter" else "") + ("/base" if o[0] == "exit" and o[2] == 2 else "")
+                     for o in ops})
     feats += sorted({"repl=" + (o[3] if isinstance(o[3], str) else "newCallable%d" % o[3][1]) + (o[8] and "/" + o[8] or "")
-                     + ("/autospecNone" if o[5] else "") for o in ops if o[0] == "construct"})
-    feats += sorted({"target=%s/%s/%s/%s" % (ts["kind"], ts["where"], ts["host"], ts["via"]) for ts in case["targets"]})
+                     + ("/autospecNone" if o[5] else "") for o in constructs})
+    if any(share_of(o) is not None for o in constructs):
+        feats.append("shared-replacement")
+    feats += sorted({"behav=%s/%s" % (o[6][0], o[6][2] if len(o[6]) > 2 else ("plain" if o[6][0] == "ret" else "exception"))
+                     for o in constructs})
+    feats += sorted({"target=%s/%s/%s/%s%s" % (ts["kind"], ts["where"], ts["host"], ts["via"],
+                                               "/alternate" if "slot" in ts else "") for ts in tspecs})
+    if any(o[0] == "call" and any(a >= ARG_BASE for a in o[2] + [v for _, v in o[3]]) for o in ops):
+        feats.append("args=exotic")
+    mx = max([len(o[2]) + len(o[3]) for o in ops if o[0] == "call"] or [0])
+    feats.append("args<=%d" % next(b for b in (0, 2, 5, 20, 10 ** 9) if mx <= b))
     nontrivial = None
     if stats["entered"] >= 1 and (stats["calls_in_patch"] >= 1 or stats["maxdepth"] >= 2):
         nontrivial = hashlib.sha1(json.dumps([case["targets"], ops], sort_keys=True).encode()).hexdigest()[:16]
